@@ -1,0 +1,21 @@
+//go:build verif
+
+// Machine-checked contracts for package pgp (comment-only; see /verif/DESIGN.md).
+
+package pgp
+
+//@ func (*pgpTransformer).Apply
+//@   property C13
+//@   ghost open bool = false
+//@   ghost committed bool = false
+//@   ghost failed bool = false
+//@   on call atomicfile.WriteAny(_) ret (f, e): open = (e == nil)
+//@   on call pgptools.MergeClearSign(_, _, _) ret (e): failed = failed || e != nil
+//@   on call pgptools.MergeSignature(_, _, _, _, _) ret (e): failed = failed || e != nil
+//@   on call io.Copy(_, _) ret (n, e): failed = failed || e != nil
+//@   on call io/ioutil.ReadAll(_) ret (b, e): failed = failed || e != nil
+//@   on call invoke atomicfile.AtomicFile.Commit(_) ret (e): committed = (e == nil); open = open && e != nil; \
+//@        assert @commit_only_after_complete_output !failed
+//@   on call invoke atomicfile.AtomicFile.Close(_) ret (e): open = false
+//@   ensures @no_temp_file_left !open
+//@   ensures @success_means_committed ret0 == nil ==> committed
